@@ -30,6 +30,7 @@ from translate import skeleton_digest
 from vlib import REPO, Broken
 
 COMPILER = "compiler/bitproto"
+LAST_TABLES: Dict[str, list] = {}
 
 
 def _read(rel: str) -> Tuple[str, ast.Module]:
@@ -578,6 +579,7 @@ def gen_memo() -> Tuple[str, Dict[str, str]]:
             for d in n.decorator_list:
                 if "cache" in ast.unparse(d):
                     raise Broken(f"translator(memo): module-level function {n.name} is cached: not modelled")
+    LAST_TABLES["cached_methods"] = [(c, m, k) for c, m, k, _r in cached]
     out.append("(* (class, decorator stack outermost first, bases) *)")
     out.append("Definition ast_classes : list (string * list string * list string) := [\n  " + ";\n  ".join(
         f"({_cstr(c)}, [{'; '.join(_cstr(d) for d in ds)}], [{'; '.join(_cstr(b) for b in bs)}])"
@@ -623,6 +625,12 @@ def gen_memo() -> Tuple[str, Dict[str, str]]:
     out.append("(* memoising decorators used outside _ast.py *)")
     out.append(f"Definition other_cache_users : list (string * string) := {_pairs(others)}.")
     return "\n".join(out) + "\n", skel
+
+
+def tables() -> Dict[str, list]:
+    """The tables of the current source (for the T2 audit): {"cached_methods": [(class, method, kind)]}."""
+    gen_memo()
+    return dict(LAST_TABLES)
 
 
 GENERATORS = {"GenMemo.v": gen_memo}
